@@ -101,3 +101,4 @@ fn c06_twin_must_fail() {
     std::mem::forget(f);
     unsafe { assert!(CALLS == 1, "TWIN:one transport call per packet"); }
 }
+
